@@ -9,15 +9,21 @@
        rRecurs (array of objects)    name "#N/"
        rRecurp (pointer)             name "/", the object exists while a toggle of the
                                      parent table is on (rChangeCb of the harness family)
-   each optionally carrying  enabled by <toggle of the parent table>.
+   each optionally carrying  enabled by <toggle>: the property's value is either the
+   name of a toggle of the parent table ("tg") or - the inner-switch form - the
+   sub-tree's own name followed by a toggle INSIDE it ("name/tg", for an enumerated
+   sub-tree "name#N/tg": element name<i>/ is switched by name<i>/tg).  The code tells the
+   two apart by comparing the property with the port's name (port_is_enabled:
+   WalkModel.subport_split).
 
    [sports_of] gives the names (the structured port tree of C09 / C04: NameModel
    segments + argument part), [app_of_tree] the flat abstract application of
    SaveModel.v: one port per leaf under every expansion of the '#N' of the
    sub-trees above it - address, kind, range, options, default(s), selector,
    the switches of the pointer sub-trees above (p_hard), the 'enabled by'
-   toggles above (p_soft).  The order is the walk's (C09: table order, leftmost
-   index slowest).
+   toggles above (p_soft; an inner switch is not governed by itself: while it is
+   off the walk does not descend but still reports the switch).  The order is the
+   walk's (C09: table order, leftmost index slowest).
 
    [run_events] interprets the callbacks a dispatch invoked (the events of C04's
    tree model, one per level): a sub-tree port descends (rRecurCb / rRecursCb) -
@@ -28,7 +34,8 @@
 
    No proofs in this file. *)
 From Coq Require Import List ZArith Bool.
-From RtoscV Require Import Match.PatSpec Match.MatchModel Ports.NameModel Ports.WalkModel Ports.DispatchModel.
+From RtoscV Require Import Match.PatSpec Match.MatchModel Ports.NameModel Ports.PathModel Ports.WalkModel Ports.DispatchModel.
+From RtoscV Require Ports.MetaModel.
 From RtoscV Require Ports.SugarModel.
 From RtoscV Require Import Save.TopoModel Save.SaveModel.
 Import ListNotations.
@@ -50,7 +57,8 @@ Inductive pt :=
 | PLeaf (nm : str) (arr : option nat) (d : leafdata)
 | PSub (nm : str) (enum : option nat)
        (ptr : option str)          (* rRecurp: name of the switch in the parent table *)
-       (sw : option str)           (* "enabled by": name of a toggle in the parent table *)
+       (sw : option str)           (* "enabled by": the literal value of the property - "tg" (a toggle
+                                      of the parent table) or "name/tg" / "name#N/tg" (a toggle inside) *)
        (sub : list pt).
 
 (* ---- names (C09's structured port tree) ----------------------------------------- *)
@@ -73,10 +81,20 @@ Definition kind_types (k : skind) : list str :=
   | KS _ => [[]; [115]]
   end.
 
+(* the name of a sub-tree port as the table holds it: "name/" or "name#N/" *)
+Definition sub_name (nm : str) (enum : option nat) : str := render_name (sub_segs nm enum) [].
+
+(* the metadata block of a sub-tree port: ":enabled by\0=<value>\0" (rEnabledBy) *)
+Definition sub_meta (sw : option str) : option (list byte) :=
+  match sw with
+  | Some g => Some (MetaModel.render [(WalkModel.enabled_by, Some g)])
+  | None => None
+  end.
+
 Fixpoint sport_of (p : pt) : sport :=
   match p with
   | PLeaf nm arr d => SPort (leaf_segs nm arr) (render_types (Some (kind_types (ld_kind d)))) None None
-  | PSub nm enum _ _ sub => SPort (sub_segs nm enum) [] None (Some (map sport_of sub))
+  | PSub nm enum _ sw sub => SPort (sub_segs nm enum) [] (sub_meta sw) (Some (map sport_of sub))
   end.
 Definition sports_of (t : list pt) : list sport := map sport_of t.
 
@@ -99,16 +117,32 @@ Definition leaf_port (path : str) (arr : option nat) (d : leafdata) : port :=
      p_sel := None; p_table := ld_table d; p_hard := []; p_soft := [];
      p_nodef := ld_nodef d; p_init := ld_init d |}.
 
+(* the address of the toggle that enables the sub-tree port [qn] of the table at [dir],
+   for the expansion x of its name ("name/", "name<i>/"), g = the 'enabled by' property:
+   the port behind "name/" below the sub-tree's own expanded address (inner form), or
+   the port g of the parent table *)
+Definition sw_addr (dir qn x g : str) : str :=
+  match subport_split qn g with
+  | Some e => dir ++ x ++ e
+  | None => dir ++ g
+  end.
+
+(* the toggles that govern a port: those above it, except the port itself (the inner
+   switch of a sub-tree stands below the sub-tree it switches) *)
+Definition soft_of (path : str) (soft : list str) : list str :=
+  filter (fun g => negb (str_eqb g path)) soft.
+
 (* ids = the index path of p itself, dir = the address of the table that holds it *)
 Fixpoint flat_pt (ids : list nat) (dir : str) (hard soft : list str) (p : pt) {struct p} : list fport :=
   match p with
   | PLeaf nm arr d =>
       [ {| f_id := ids; f_port := leaf_port (dir ++ nm) arr d;
-           f_sel := option_map (fun x => dir ++ x) (ld_sel d); f_hard := hard; f_soft := soft |} ]
+           f_sel := option_map (fun x => dir ++ x) (ld_sel d); f_hard := hard;
+           f_soft := soft_of (dir ++ nm) soft |} ]
   | PSub nm enum ptr sw sub =>
       let hard' := hard ++ olist (option_map (fun x => dir ++ x) ptr) in
-      let soft' := soft ++ olist (option_map (fun x => dir ++ x) sw) in
       flat_map (fun x =>
+        let soft' := soft ++ olist (option_map (sw_addr dir (sub_name nm enum) x) sw) in
         (fix go (l : list pt) (i : nat) : list fport :=
            match l with
            | [] => []
@@ -307,7 +341,8 @@ Definition len_id (l : list sport) : Z := Z.of_nat (length l).
 
 (* ---- the walk with the runtime object of a state ---------------------------------------------- *)
 (* the sub-tree ports under every expansion: address (with the trailing '/'), switch
-   of the pointer, 'enabled by' toggle (addresses) *)
+   of the pointer, 'enabled by' toggle (addresses; the inner form: the toggle below that
+   expansion) *)
 Definition dir_entry := (str * option str * option str)%type.
 
 Fixpoint dirs_pt (dir : str) (p : pt) {struct p} : list dir_entry :=
@@ -315,7 +350,7 @@ Fixpoint dirs_pt (dir : str) (p : pt) {struct p} : list dir_entry :=
   | PLeaf _ _ _ => []
   | PSub nm enum ptr sw sub =>
       flat_map (fun x =>
-        (dir ++ x, option_map (fun g => dir ++ g) ptr, option_map (fun g => dir ++ g) sw) ::
+        (dir ++ x, option_map (fun g => dir ++ g) ptr, option_map (sw_addr dir (sub_name nm enum) x) sw) ::
         (fix go (l : list pt) : list dir_entry :=
            match l with [] => [] | q :: r => dirs_pt (dir ++ x) q ++ go r end) sub)
         (expand (sub_segs nm enum))
@@ -350,3 +385,35 @@ Definition walk_tree (t : list pt) (st : state) : list nat :=
   | WOk out _ => filter (fun i => reported out (elem_addr (port_at a i) 0)) (seq 0 (length a))
   | WFail => []
   end.
+
+(* ---- side conditions on the 'enabled by' properties (decidable) --------------------------------- *)
+Definition nonul_b (s : str) : bool := forallb (fun c => negb (c =? 0)) s.
+
+(* the inner form: what stands behind "name/" is, for Ports::operator[] on the sub-table
+   (ask_ports[ask_port_str]), a toggle leaf of that name *)
+Definition inner_ok (sub : list pt) (e : str) : bool :=
+  match index_op (map render_port (sports_of sub)) e with
+  | Some j =>
+      match nth_error sub j with
+      | Some (PLeaf nm None d) => str_eqb nm e && match ld_kind d with KT => true | _ => false end
+      | _ => false
+      end
+  | None => false
+  end.
+
+(* every 'enabled by' value is a C string; one of the inner form names a toggle of the
+   sub-tree's own table, the other form is one name (port_is_enabled:
+   assert(!strchr(ask_port_str, '/'))) *)
+Fixpoint sw_ok (p : pt) : bool :=
+  match p with
+  | PLeaf _ _ _ => true
+  | PSub nm enum _ sw sub =>
+      match sw with
+      | Some g => nonul_b g && match subport_split (sub_name nm enum) g with
+                               | Some e => inner_ok sub e
+                               | None => negb (has_char 47 g)
+                               end
+      | None => true
+      end && forallb sw_ok sub
+  end.
+Definition switches_ok (t : list pt) : bool := forallb sw_ok t.
